@@ -108,6 +108,7 @@ def c10_prefix(sc, base):
 
 def c11_order(sc, base, seed, pid="C11"):
     out = []
+    q = 10.0 ** -(int(np.log10(sc["model"]["monetary_factor"])) + 1)
     out += _late_registration(sc, base, seed, pid)
     if len(sc["events"]) >= 2:
         tw = copy.deepcopy(sc)
@@ -116,7 +117,9 @@ def c11_order(sc, base, seed, pid="C11"):
             tw["events"] = list(reversed(tw["events"]))
         b = run_records(tw)
         q = 10.0 ** -(int(np.log10(sc["model"]["monetary_factor"])) + 1)
-        out += cmp_records(pid, base, b, "events added in another order", rtol=1e-9, atol_scale=1e-9, extra_abs=0.0)
+        # ("beyond rounding": with other block ids the float noise differs, and a ledger cell that sits on a rounding tie may
+        #  land one quantum higher or lower — a few quanta are allowed, which only matters for economies of order one)
+        out += cmp_records(pid, base, b, "events added in another order", rtol=1e-9, atol_scale=1e-9, extra_abs=20 * q)
     for mode in ("ctor", "list"):
         tw = copy.deepcopy(sc)
         tw["sim"]["events_mode"] = mode
@@ -158,7 +161,8 @@ def c11_order(sc, base, seed, pid="C11"):
                 b["columns"] = list(sim.production_realised.columns)
             except Exception as e:
                 b = {"error": f"{type(e).__name__}: {e}"}
-            out += cmp_records(pid, base, b, f"some events registered after {j} steps (before any occurrence) instead of up front", rtol=1e-9, atol_scale=1e-9)
+            out += cmp_records(pid, base, b, f"some events registered after {j} steps (before any occurrence) instead of up front", rtol=1e-9, atol_scale=1e-9,
+                               extra_abs=20 * q)
     return out
 
 
@@ -216,8 +220,9 @@ def _late_registration(sc, base, seed, pid):
         b = {"error": f"{type(e).__name__}: {e}"}
     # (the base run registers the events in scenario order, this one registers the last-occurring one last: compare as
     #  for another order of registration)
+    q = 10.0 ** -(int(np.log10(sc["model"]["monetary_factor"])) + 1)
     out += cmp_records(pid, base, b, f"the event occurring last announced after {j} steps, while earlier events are under way ({via})",
-                       rtol=1e-9, atol_scale=1e-9)
+                       rtol=1e-9, atol_scale=1e-9, extra_abs=20 * q)
     return out
 
 
